@@ -192,6 +192,183 @@ Proof.
     assert (E : Reqb 1 (-1) = false) by (apply Reqb_false; lra). rewrite E. reflexivity.
 Qed.
 
+(* ------------------------------------------------------------------------------------ *)
+(** * 3c. the stepping loop of tracePhase (generated [loop_body], [trace_dir]) *)
+
+Section Loop.
+Context {Fld Hess : Type}.
+Variable X : ext Fld Hess.
+Variables (T0 rTol : R) (spinodal paranoid : bool).
+
+Definition entries (st : lstate Fld) := combine (l_T st) (combine (l_F st) (l_P st)).
+Definition aligned (st : lstate Fld) :=
+  length (l_T st) = length (l_F st) /\ length (l_F st) = length (l_P st).
+Definition tested (t : R) (y : Fld) : Prop := 0 < spinodalEvent X spinodal t y.
+Definition good_entry (e : R * (Fld * option R)) : Prop :=
+  let '(t, (y, p)) := e in
+  exists v, p = Some v /\
+    ((tested t y /\ ((exists y0 tol, findLocalMinimum X y0 t tol = (y, v)) \/ v = evaluate X y t))
+     \/ (paranoid = false /\ exists y0, tested t y0 /\
+           findLocalMinimum X y0 t (extraTol_of rTol) = (y, v))).
+
+Lemma combine_snoc {A B} (l1 : list A) (l2 : list B) a b : length l1 = length l2 ->
+  combine (l1 ++ [a]) (l2 ++ [b]) = combine l1 l2 ++ [(a, b)].
+Proof.
+  revert l2. induction l1 as [|x r IH]; intros [|y r2] H; cbn in *; try discriminate; [reflexivity|].
+  f_equal. apply IH. lia.
+Qed.
+
+Ltac body_cases :=
+  unfold loop_body;
+  match goal with |- context [rk_step X ?o] => destruct (rk_step X o) as [o1|] eqn:Hstep end;
+  [destruct paranoid eqn:Hp; cbn [negb];
+   repeat match goal with
+     | |- context [findLocalMinimum X ?y ?t ?tol] =>
+         destruct (findLocalMinimum X y t tol) as [ph pv] eqn:?
+     end;
+   cbn [l_ode l_pot l_T l_F l_P set_l_ode set_l_pot set_l_T set_l_F set_l_P ode_t ode_y ode_h
+        ode_running set_y];
+   repeat match goal with
+     | |- context [if ?c then _ else _] => destruct c eqn:?
+     end;
+   cbn [fst snd l_ode l_pot l_T l_F l_P set_l_ode set_l_pot set_l_T set_l_F set_l_P ode_t ode_y
+        ode_h ode_running set_y]
+  | cbn [fst snd]].
+
+Lemma body_entries st : aligned st ->
+  let r := loop_body X T0 rTol spinodal paranoid st in
+  aligned (fst r) /\
+  (entries (fst r) = entries st \/
+   exists e, entries (fst r) = entries st ++ [e] /\ good_entry e /\ snd r = false).
+Proof.
+  intros [A1 A2]. cbv zeta. destruct st as [o pot lT lF lP]. unfold aligned, entries in *.
+  cbn [l_ode l_pot l_T l_F l_P] in *.
+  body_cases.
+  all: try (split; [split; assumption|left; reflexivity]).
+  all: rewrite ?app_length; cbn [length].
+  all: split; [split; lia|right].
+  all: rewrite (combine_snoc lF lP _ _ A2), (combine_snoc lT _ _ _) by (rewrite combine_length; lia).
+  all: eexists; split; [reflexivity|split; [|reflexivity]].
+  all: unfold good_entry; eexists; split; [reflexivity|].
+  all: cbn [l_ode l_pot l_T l_F l_P set_l_ode ode_t ode_y] in *.
+  all: unfold tested.
+  all: repeat match goal with H : Rleb _ 0 = false |- _ => apply Rleb_false in H end.
+  all: first [ left; split; [assumption|first [right; reflexivity|left; eexists; eexists; eassumption]]
+             | right; split; [first [reflexivity|assumption]|eexists; split; eassumption] ].
+Qed.
+
+Theorem sweep_entries fuel st0 : aligned st0 ->
+  let st := trace_dir X fuel T0 rTol spinodal paranoid st0 in
+  aligned st /\ exists new, entries st = entries st0 ++ new /\ Forall good_entry new.
+Proof.
+  intros A0. cbv zeta. unfold trace_dir.
+  apply (run_while_inv (fun st => aligned st /\ exists new, entries st = entries st0 ++ new /\
+                                   Forall good_entry new)).
+  - intros st [A [new [E G]]] _. destruct (body_entries st A) as [A' [Eq|[e [Eq [Ge _]]]]].
+    + split; [exact A'|]. exists new. rewrite Eq. split; assumption.
+    + split; [exact A'|]. exists (new ++ [e]). rewrite Eq, E, app_assoc. split; [reflexivity|].
+      apply Forall_app. split; [exact G|constructor; [exact Ge|constructor]].
+  - split; [exact A0|]. exists []. rewrite app_nil_r. split; [reflexivity|constructor].
+Qed.
+
+(** ** the tabulated temperatures are strictly monotone *)
+Definition up_inv (st : lstate Fld) : Prop :=
+  incr (l_T st) /\ (forall x, In x (l_T st) -> x <= ode_t (l_ode st)) /\
+  (forall x, In x (l_T st) -> T0 <= x) /\ T0 <= ode_t (l_ode st).
+Definition down_inv (st : lstate Fld) : Prop :=
+  decr (l_T st) /\ (forall x, In x (l_T st) -> ode_t (l_ode st) <= x) /\
+  (forall x, In x (l_T st) -> x < T0) /\ ode_t (l_ode st) <= T0.
+
+Lemma body_up st : (forall o o', rk_step X o = Some o' -> ode_t o < ode_t o') ->
+  up_inv st -> up_inv (fst (loop_body X T0 rTol spinodal paranoid st)).
+Proof.
+  intros Hrk [I1 [I2 [I3 I4]]]. destruct st as [o pot lT lF lP]. unfold up_inv in *.
+  cbn [l_ode l_pot l_T l_F l_P] in *.
+  body_cases.
+  all: try (specialize (Hrk _ _ Hstep)).
+  all: cbn [l_ode l_pot l_T l_F l_P set_l_ode ode_t ode_y] in *.
+  all: try (repeat split; [exact I1|intros x Hx; specialize (I2 x Hx); lra|exact I3|lra]).
+  all: repeat split;
+    [apply incr_snoc; [exact I1|intros y Hy; specialize (I2 y Hy); lra]
+    |intros x Hx; apply in_app_or in Hx; destruct Hx as [Hx|[Hx|[]]];
+       [specialize (I2 x Hx); lra|subst x; lra]
+    |intros x Hx; apply in_app_or in Hx; destruct Hx as [Hx|[Hx|[]]];
+       [apply I3; exact Hx|subst x; lra]
+    |lra].
+Qed.
+
+Lemma body_down st : (forall o o', rk_step X o = Some o' -> ode_t o' < ode_t o) ->
+  down_inv st -> down_inv (fst (loop_body X T0 rTol spinodal paranoid st)).
+Proof.
+  intros Hrk [I1 [I2 [I3 I4]]]. destruct st as [o pot lT lF lP]. unfold down_inv in *.
+  cbn [l_ode l_pot l_T l_F l_P] in *.
+  body_cases.
+  all: try (specialize (Hrk _ _ Hstep)).
+  all: cbn [l_ode l_pot l_T l_F l_P set_l_ode ode_t ode_y] in *.
+  all: try (repeat split; [exact I1|intros x Hx; specialize (I2 x Hx); lra|exact I3|lra]).
+  all: repeat split;
+    [apply decr_snoc; [exact I1|intros y Hy; specialize (I2 y Hy); lra]
+    |intros x Hx; apply in_app_or in Hx; destruct Hx as [Hx|[Hx|[]]];
+       [specialize (I2 x Hx); lra|subst x; lra]
+    |intros x Hx; apply in_app_or in Hx; destruct Hx as [Hx|[Hx|[]]];
+       [apply I3; exact Hx|subst x; lra]
+    |lra].
+Qed.
+
+Lemma body_keeps st x : In x (l_T st) ->
+  In x (l_T (fst (loop_body X T0 rTol spinodal paranoid st))).
+Proof.
+  intros Hx. destruct st as [o pot lT lF lP]. cbn [l_T] in Hx.
+  body_cases.
+  all: cbn [l_ode l_pot l_T l_F l_P set_l_ode ode_t ode_y] in *.
+  all: try exact Hx.
+  all: apply in_or_app; left; exact Hx.
+Qed.
+End Loop.
+
+Theorem joined_table_sorted_lemma {Fld Hess : Type} (XU XD : ext Fld Hess) (T0 rTol : R)
+    (spinodal paranoid : bool) (fuel1 fuel2 : nat) (oU oD : ode Fld) (phase0 : Fld)
+    (potential0 : R) :
+  (forall o o', rk_step XU o = Some o' -> ode_t o < ode_t o') ->
+  (forall o o', rk_step XD o = Some o' -> ode_t o' < ode_t o) ->
+  ode_t oU = T0 -> ode_t oD = T0 ->
+  let '(lT, lF, lP) := first_sweep_lists T0 phase0 potential0 in
+  let up := trace_dir XU fuel1 T0 rTol spinodal paranoid (mk_lstate oU None lT lF lP) in
+  let down := trace_dir XD fuel2 T0 rTol spinodal paranoid (mk_lstate oD (l_pot up) [] [] []) in
+  let TFull := if join_cond (l_T down) then join_T (l_T down) (l_T up) else l_T up in
+  incr TFull /\ In T0 TFull /\ lmin TFull = hd 0 TFull /\ lmax TFull = last TFull 0 /\
+  (forall x, In x (l_T down) -> x < T0) /\ (forall x, In x (l_T up) -> T0 <= x).
+Proof.
+  intros HU HD EU ED. unfold first_sweep_lists. cbv zeta.
+  set (up := trace_dir XU fuel1 T0 rTol spinodal paranoid _).
+  set (down := trace_dir XD fuel2 T0 rTol spinodal paranoid _).
+  assert (Iu : up_inv T0 up /\ In T0 (l_T up)).
+  { unfold up, trace_dir.
+    apply (run_while_inv (fun st => up_inv T0 st /\ In T0 (l_T st))).
+    - intros st [A B] _. split; [apply body_up; assumption|apply body_keeps; exact B].
+    - unfold up_inv. cbn [l_T l_ode]. rewrite EU. repeat split; try lra.
+      + intros x [Hx|[]]. lra.
+      + intros x [Hx|[]]. lra.
+      + left; reflexivity. }
+  assert (Id : down_inv T0 down).
+  { unfold down, trace_dir. apply (run_while_inv (down_inv T0)).
+    - intros st A _. apply body_down; assumption.
+    - unfold down_inv, decr. cbn [l_T l_ode rev incr]. rewrite ED. repeat split; try lra.
+      + intros x [].
+      + intros x []. }
+  destruct Iu as [[U1 [U2 [U3 U4]]] UT0]. destruct Id as [D1 [D2 [D3 D4]]].
+  assert (S : incr (if join_cond (l_T down) then join_T (l_T down) (l_T up) else l_T up)).
+  { destruct (join_cond (l_T down)); [|exact U1]. unfold join_T. apply incr_app; [exact D1|exact U1|].
+    intros x y Hx Hy. apply in_rev in Hx. specialize (D3 x Hx). specialize (U3 y Hy). lra. }
+  assert (M : In T0 (if join_cond (l_T down) then join_T (l_T down) (l_T up) else l_T up)).
+  { destruct (join_cond (l_T down)); [|exact UT0]. unfold join_T. apply in_or_app. right. exact UT0. }
+  split; [exact S|]. split; [exact M|].
+  assert (NE : (if join_cond (l_T down) then join_T (l_T down) (l_T up) else l_T up) <> []).
+  { intros E. rewrite E in M. destruct M. }
+  destruct (incr_bounds _ S NE) as [B1 B2].
+  repeat split; assumption.
+Qed.
+
 (* ==================================================================================== *)
 (** * The theorems *)
 
@@ -327,3 +504,57 @@ Theorem sweeps_go_up_then_down :
       first_sweep_lists T0 p v = ([T0], [p], [Some v])).
 Proof. repeat split. Qed.
 Print Assumptions sweeps_go_up_then_down.
+
+(** every point appended by a sweep of the stepping loop, for ANY behaviour of RK45, BFGS and
+    the finite-difference derivatives, carries a bound potential value, and
+    - with re-minimisation at each step (paranoid): it passed the spinodal test AT the
+      tabulated field value and its potential is findLocalMinimum's value at that point;
+    - without: it passed the test and carries evaluate / findLocalMinimum there, OR it is the
+      re-minimisation (tolerance extraTol) of a point that passed the test -- in that last
+      case the tabulated point itself is NOT tested (this is the path by which the real
+      tracer continues on another phase with paranoid=False; known finding). *)
+Theorem tabulated_points_tested_or_reminimised_partial :
+  forall (Fld Hess : Type) (X : ext Fld Hess) (T0 rTol : R) (spinodal paranoid : bool)
+         (fuel : nat) (st0 : lstate Fld),
+  aligned st0 ->
+  let st := trace_dir X fuel T0 rTol spinodal paranoid st0 in
+  aligned st /\ exists new, entries st = entries st0 ++ new /\
+                           Forall (good_entry X rTol spinodal paranoid) new.
+Proof. intros Fld Hess X T0 rTol spinodal paranoid fuel st0. apply sweep_entries. Qed.
+Print Assumptions tabulated_points_tested_or_reminimised_partial.
+
+Theorem tabulated_points_pass_spinodal_test :
+  forall (Fld Hess : Type) (X : ext Fld Hess) (T0 rTol : R) (spinodal : bool)
+         (fuel : nat) (st0 : lstate Fld),
+  aligned st0 ->
+  let st := trace_dir X fuel T0 rTol spinodal true st0 in
+  exists new, entries st = entries st0 ++ new /\
+    Forall (fun e => let '(t, (y, p)) := e in
+              0 < spinodalEvent X spinodal t y /\
+              exists v, p = Some v /\
+                ((exists y0 tol, findLocalMinimum X y0 t tol = (y, v)) \/ v = evaluate X y t)) new.
+Proof.
+  intros Fld Hess X T0 rTol spinodal fuel st0 A.
+  destruct (sweep_entries X T0 rTol spinodal true fuel st0 A) as [_ [new [E G]]].
+  exists new. split; [exact E|]. eapply Forall_impl; [|exact G].
+  intros [t [y p]] [v [Hp [[Ht Hv]|[Hf _]]]]; [|discriminate].
+  split; [exact Ht|]. exists v. split; assumption.
+Qed.
+Print Assumptions tabulated_points_pass_spinodal_test.
+
+(** the joined table is strictly increasing in T (so min/max of the table are its first and
+    last entries, reached by the downward resp. upward sweep), provided RK45 advances *)
+Theorem joined_table_sorted :
+  forall (Fld Hess : Type) (XU XD : ext Fld Hess) (T0 rTol : R) (spinodal paranoid : bool)
+         (fuel1 fuel2 : nat) (oU oD : ode Fld) (phase0 : Fld) (potential0 : R),
+  (forall o o', rk_step XU o = Some o' -> ode_t o < ode_t o') ->
+  (forall o o', rk_step XD o = Some o' -> ode_t o' < ode_t o) ->
+  ode_t oU = T0 -> ode_t oD = T0 ->
+  let '(lT, lF, lP) := first_sweep_lists T0 phase0 potential0 in
+  let up := trace_dir XU fuel1 T0 rTol spinodal paranoid (mk_lstate oU None lT lF lP) in
+  let down := trace_dir XD fuel2 T0 rTol spinodal paranoid (mk_lstate oD (l_pot up) [] [] []) in
+  let TFull := if join_cond (l_T down) then join_T (l_T down) (l_T up) else l_T up in
+  incr TFull /\ In T0 TFull /\ lmin TFull = hd 0 TFull /\ lmax TFull = last TFull 0 /\
+  (forall x, In x (l_T down) -> x < T0) /\ (forall x, In x (l_T up) -> T0 <= x).
+Proof. intros Fld Hess. exact (@joined_table_sorted_lemma Fld Hess). Qed.
+Print Assumptions joined_table_sorted.
